@@ -949,7 +949,7 @@ class NativeFusion(NativeCheck):
         hi2 = max(exons[t][-1][1] for t in a_ids)
         gene_seq = {g['id']: anno.genes[g['id']].get_gene_sequence(genome['chr1']).seq for g in genes}
         for bpL in range(lo1 + 1, hi1 + 1):
-            for bpR in rng.sample(range(lo2 + 1, hi2 + 1), 3):
+            for bpR in rng.sample(range(lo2 + 1, hi2 + 1), min(3, hi2 - lo2)):
                 gl, gr = bpL - 1, bpR - 1
                 rec = _mk_tool_record(inp['tool'], bpL, bpR)
                 call = f"{inp['tool']} record {bpL}/{bpR} strands {s1}/{s2}"
